@@ -163,7 +163,8 @@ class BaseGeo(BaseTransform):
         Object position(s) in the global coordinates in units of m. For m>1, the
         `position` and `orientation` attributes together represent an object path.
         """
-        return np.squeeze(self._position)
+        # a copy, so that `obj.position += d` cannot modify the path behind the setter's back
+        return np.squeeze(self._position).copy()
 
     @position.setter
     def position(self, inp):
